@@ -346,6 +346,10 @@ func bytesHaveSchemaLink(br blob.Ref, bb []byte, target blob.Ref) bool {
 		if slices.Contains(b.StaticSetMembers(), target) {
 			return true
 		}
+		// Large directories spread their members over sub-sets.
+		if slices.Contains(b.StaticSetMergeSets(), target) {
+			return true
+		}
 	}
 	return false
 }
